@@ -198,10 +198,27 @@ static unsigned *txid_ctr (const uint8_t *d, size_t len)
   return NULL;
 }
 
-static void vsend (const struct sockaddr_in *from, const struct sockaddr_in *to, const uint8_t *d, size_t len)
+/* port-preserving full-cone NATs: `net nat <real ip> <public ip>`.  Packets from <real ip> leave with the public
+ * address; packets to the public address reach the real one; the real address is not reachable from outside. */
+static struct { struct in_addr real, pub; } nat_rules[8]; static int n_nat = 0;
+
+static void vsend (const struct sockaddr_in *from0, const struct sockaddr_in *to0, const uint8_t *d, size_t len)
 {
   unsigned lat;
-  int drop = 0;
+  int drop = 0, k, src_nat = -1;
+  struct sockaddr_in fromv = *from0, tov = *to0;
+  const struct sockaddr_in *from = &fromv, *to = &tov;
+  for (k = 0; k < n_nat; k++) if (fromv.sin_addr.s_addr == nat_rules[k].real.s_addr) { src_nat = k; break; }
+  for (k = 0; k < n_nat; k++) {
+    if (tov.sin_addr.s_addr == nat_rules[k].pub.s_addr) { tov.sin_addr = nat_rules[k].real; break; }
+    if (tov.sin_addr.s_addr == nat_rules[k].real.s_addr && src_nat != k) {
+      /* a private address is not routable from outside its NAT */
+      n_sent++; n_dropped++;
+      if (trace_packets) { describe_packet ("tx", from0, to0, d, len); printf ("ev t=%llu drop nat-unreachable\n", (unsigned long long) (verif_now_us / 1000)); }
+      return;
+    }
+  }
+  if (src_nat >= 0 && tov.sin_addr.s_addr != nat_rules[src_nat].real.s_addr) fromv.sin_addr = nat_rules[src_nat].pub;
   n_sent++;
   if (trace_packets) describe_packet ("tx", from, to, d, len);
   if (blacked_out (from, to)) drop = 1;
@@ -366,8 +383,9 @@ static Ag *ag_of (NiceAgent *a)
 
 static const char *owner_of (const struct sockaddr_in *a)
 {
-  static char buf[4][16]; static int k = 0; int i, j; char ip[32];
-  inet_ntop (AF_INET, &a->sin_addr, ip, sizeof ip);
+  static char buf[4][16]; static int k = 0; int i, j; char ip[32]; struct in_addr ia = a->sin_addr;
+  for (i = 0; i < n_nat; i++) if (ia.s_addr == nat_rules[i].pub.s_addr) ia = nat_rules[i].real;   /* behind a NAT */
+  inet_ntop (AF_INET, &ia, ip, sizeof ip);
   for (i = 0; i < n_ags; i++) for (j = 0; j < ags[i].n_addrs; j++) if (!strcmp (ags[i].addrs[j], ip)) return ags[i].name;
   k = (k + 1) % 4; snprintf (buf[k], 16, "?"); return buf[k];
 }
@@ -905,6 +923,10 @@ int main (void)
       }
       else if (!strcmp (w[1], "dropnext") && n == 3) { dropnext = atoi (w[2]); puts ("ok"); }
       else if (!strcmp (w[1], "tickcost") && n == 3) { tick_cost_us = atoi (w[2]); puts ("ok"); }
+      else if (!strcmp (w[1], "nat") && n == 4 && n_nat < 8) {
+        if (inet_pton (AF_INET, w[2], &nat_rules[n_nat].real) == 1 && inet_pton (AF_INET, w[3], &nat_rules[n_nat].pub) == 1) { n_nat++; puts ("ok"); }
+        else puts ("err bad nat");
+      }
       else if (!strcmp (w[1], "trace") && n == 3) { trace_packets = atoi (w[2]); puts ("ok"); }
       else if (!strcmp (w[1], "blackout") && n == 6 && n_blackouts < 32) {
         Blackout *b = &blackouts[n_blackouts++];
